@@ -393,7 +393,7 @@ pub fn run(ctx: &Ctx) -> Outcome {
         }
     }
     if want("history") {
-        let (lo, hi) = range(ctx.tier.pick(1000, 60_000));
+        let (lo, hi) = range(ctx.tier.pick(4000, 60_000));
         run_cases(&mut acc, "history", hi - lo, |i| {
             let mut out = CaseOut::new();
             history_case(i + lo, seed, &mut out);
@@ -401,7 +401,7 @@ pub fn run(ctx: &Ctx) -> Outcome {
         });
     }
     if want("purge-all") {
-        let (lo, hi) = range(ctx.tier.pick(200, 10_000));
+        let (lo, hi) = range(ctx.tier.pick(800, 10_000));
         run_cases(&mut acc, "purge-all", hi - lo, |i| {
             let mut out = CaseOut::new();
             purge_all_case(i + lo, seed, &mut out);
